@@ -258,6 +258,9 @@ def probe_lookup(ctx, name, cls, exported, defined):
 def run_shard(ctx):
     classes = ref_decl.all_classes()
     defined = ref_decl.defined_classes()
+    if ctx.shard % 2 == 0:
+        # half of the shards use the base classes' own class-level API first (order of first use must not matter)
+        ctx.count("base_classes_used_first", ref_decl.touch_base_classes())
     thorough = ctx.tier == "thorough"
     reps = 1 if not thorough else 25
     if ctx.shard == 0:
@@ -285,6 +288,7 @@ def run_shard(ctx):
 
 def replay(ctx, case):
     classes = ref_decl.all_classes()
+    ref_decl.touch_base_classes()
     name = case["cls"]
     cls = classes.get(name)
     op = case["op"]
